@@ -22,6 +22,7 @@ import (
 	"sync"
 	"time"
 
+	"capnproto.org/go/capnp/v3/std/capnp/schema"
 	"genir/lay"
 )
 
@@ -47,9 +48,15 @@ type entry struct {
 	req    []byte
 	expect string
 	rep    *entryReport
-	table  *lay.Table
-	firs   []string // Coq terms, parallel to table.Fields
-	nirs   []string
+	table  *lay.Table // the MAIN (first requested) file: what the dynamic driver links
+	sfields []lay.FieldRec // all requested files (static check)
+	snodes  []lay.NodeRec
+	firs   []string // Coq terms, parallel to sfields
+	nirs   []string // parallel to snodes
+	trefs  []string // Coq terms (schema type id, [ids the emitted qualified names resolve to])
+	drefs  []string // Coq terms (kind, ((slot, default bytes) of the schema, (slot, default bytes) emitted))
+	tableOK bool    // the main file's table is complete (the package can be linked into the dynamic driver)
+	repo   string
 	pkgDir string // directory (relative to work) holding the emitted package
 	pkg    string // Go package name
 }
@@ -58,7 +65,7 @@ type entry struct {
 // schema ids are registered by the library's own std packages (schemas.Register panics on the
 // second registration); they take part in the static check and the compile check only.
 func (e *entry) linked() bool {
-	return e.rep.Translated && e.rep.Compiles == "yes" && len(e.table.Nodes) > 0 && e.source != "std"
+	return e.tableOK && e.rep.Compiles == "yes" && len(e.table.Nodes) > 0 && e.source != "std"
 }
 
 func must(err error) {
@@ -95,8 +102,11 @@ func main() {
 	entries = append(entries, stdEntries(repoAbs)...)
 	entries = append(entries, randomEntries(*seed, *count)...)
 	entries = append(entries, boundaryEntries()...)
+	entries = append(entries, sharedSlotEntries()...)
 	entries = append(entries, probeEntries()...)
+	entries = append(entries, multiFileEntries()...)
 	for _, e := range entries {
+		e.repo = repoAbs
 		e.rep = &entryReport{Name: e.name, Source: e.source, Determinism: "-", Compiles: "-", Expect: e.expect}
 	}
 
@@ -144,7 +154,7 @@ func main() {
 				e.rep.CompileErr = "imports " + imp + " which is outside the corpus and the repository"
 				continue
 			}
-			args = append(args, "./"+e.pkgDir)
+			args = append(args, "./"+e.pkgDir+"/...")
 		}
 		cmd := exec.Command(*gobin, args...)
 		cmd.Dir = genDir
@@ -290,7 +300,7 @@ func generate(e *entry, capnpc, work, genDir string) {
 	e.rep.Files = names
 	e.pkgDir = e.name
 	for _, k := range names {
-		p := filepath.Join(genDir, e.name, filepath.Base(k))
+		p := filepath.Join(genDir, e.name, k)
 		os.MkdirAll(filepath.Dir(p), 0o755)
 		os.WriteFile(p, first[k], 0o644)
 	}
@@ -304,42 +314,107 @@ func translate(e *entry, genDir string) {
 	}
 	rfs, _ := req.RequestedFiles()
 	e.table = &lay.Table{}
+	// parse every emitted file; index them by the Go import path their file node declares
+	nodes, _ := req.Nodes()
+	impOf := map[uint64]string{}
+	for i := 0; i < nodes.Len(); i++ {
+		n := nodes.At(i)
+		if n.Which() != schema.Node_Which_file {
+			continue
+		}
+		anns, _ := n.Annotations()
+		for k := 0; k < anns.Len(); k++ {
+			if anns.At(k).Id() == annImport {
+				v, _ := anns.At(k).Value()
+				impOf[n.Id()], _ = v.Text()
+			}
+		}
+	}
+	byImport := map[string]*goFile{}
+	var files []*goFile
 	for i := 0; i < rfs.Len(); i++ {
 		rf := rfs.At(i)
 		fname, _ := rf.Filename()
-		g, err := parseGo(filepath.Join(genDir, e.name, filepath.Base(fname)+".go"))
+		g, err := parseGo(filepath.Join(genDir, e.name, fname+".go"))
 		if err != nil {
 			e.rep.TransErr = "emitted file does not parse: " + err.Error()
 			return
 		}
-		e.pkg = g.pkg
+		files = append(files, g)
+		if imp := impOf[rf.Id()]; imp != "" {
+			byImport[imp] = g
+		}
+	}
+	res := &resolver{byImport: byImport, repo: e.repo, cache: map[string]*goFile{}}
+	for i := 0; i < rfs.Len(); i++ {
+		rf := rfs.At(i)
+		g := files[i]
+		if i == 0 {
+			e.pkg = g.pkg
+		}
 		t, err := lay.Build(e.name, e.name, req, rf.Id(), g)
 		if err != nil {
 			e.rep.TransErr = err.Error()
 			return
 		}
+		// an accessor genir does not understand is an error of the entry (fail closed: the entry is
+		// left out of the static lists and reported), but the walk goes on so that the table stays
+		// complete and the package can still be run by the dynamic driver
+		fail := func(err error) {
+			if e.rep.TransErr == "" {
+				e.rep.TransErr = err.Error()
+			}
+		}
 		for _, f := range t.Fields {
 			ir, err := g.fieldIR(f)
 			if err != nil {
-				e.rep.TransErr = err.Error()
-				return
+				fail(err)
 			}
 			e.firs = append(e.firs, ir)
+			if f.TypeID != 0 {
+				tr, err := g.fieldTypeRefs(f, res)
+				if err != nil {
+					fail(err)
+				}
+				if tr != "" {
+					e.trefs = append(e.trefs, fmt.Sprintf("  (* %s %s.%s *) %s", e.name, f.Type, f.Name, tr))
+				}
+			}
+			drs, err := g.defRefs(f)
+			if err != nil {
+				fail(err)
+			}
+			for _, dr := range drs {
+				e.drefs = append(e.drefs, fmt.Sprintf("  (* %s %s.%s *) %s", e.name, f.Type, f.Name, dr))
+			}
 		}
 		for _, n := range t.Nodes {
 			ir, err := g.nodeIR(n)
 			if err != nil {
-				e.rep.TransErr = err.Error()
-				return
+				fail(err)
 			}
 			e.nirs = append(e.nirs, ir)
 		}
-		e.table.Fields = append(e.table.Fields, t.Fields...)
-		e.table.Nodes = append(e.table.Nodes, t.Nodes...)
+		for _, ifc := range t.Ifaces {
+			trs, err := g.ifaceTypeRefs(ifc, res)
+			if err != nil {
+				fail(err)
+			}
+			for _, tr := range trs {
+				e.trefs = append(e.trefs, fmt.Sprintf("  (* %s interface %s *) %s", e.name, ifc.Type, tr))
+			}
+		}
+		e.sfields = append(e.sfields, t.Fields...)
+		e.snodes = append(e.snodes, t.Nodes...)
+		if i == 0 {
+			e.table.Fields = append(e.table.Fields, t.Fields...)
+			e.table.Nodes = append(e.table.Nodes, t.Nodes...)
+		}
 	}
-	e.rep.Translated = true
-	e.rep.Fields = len(e.table.Fields)
-	e.rep.Nodes = len(e.table.Nodes)
+	e.tableOK = true
+	e.rep.Translated = e.rep.TransErr == ""
+	e.rep.Fields = len(e.sfields)
+	e.rep.Nodes = len(e.snodes)
 }
 
 var coqKind = map[string]string{"void": "KVoid", "bool": "KBool", "i8": "(KInt W8)", "i16": "(KInt W16)", "i32": "(KInt W32)",
@@ -368,7 +443,7 @@ func writeCoq(path string, entries []*entry) error {
 		if !e.rep.Translated {
 			continue
 		}
-		for i, f := range e.table.Fields {
+		for i, f := range e.sfields {
 			nf++
 			t := fmt.Sprintf("(mkF %s %d %s %d %d,\n   %s)", coqKind[f.Kind], f.Off, zlit(f.Def), f.Disc, f.DOff, e.firs[i])
 			if !seenF[t] {
@@ -376,7 +451,7 @@ func writeCoq(path string, entries []*entry) error {
 				fl = append(fl, fmt.Sprintf("  (* %s %s.%s *)\n  %s", e.name, f.Type, f.Name, t))
 			}
 		}
-		for i, n := range e.table.Nodes {
+		for i, n := range e.snodes {
 			nn++
 			var ms []string
 			for _, m := range n.Members {
@@ -392,7 +467,40 @@ func writeCoq(path string, entries []*entry) error {
 	}
 	fmt.Fprintf(&b, "(* %d fields (%d distinct), %d nodes (%d distinct) *)\n", nf, len(fl), nn, len(nl))
 	b.WriteString("Definition fields : list (field_desc * accessor_ir) := [\n" + strings.Join(fl, ";\n") + "\n].\n\n")
-	b.WriteString("Definition nodes : list (node_desc * node_ir) := [\n" + strings.Join(nl, ";\n") + "\n].\n")
+	b.WriteString("Definition nodes : list (node_desc * node_ir) := [\n" + strings.Join(nl, ";\n") + "\n].\n\n")
+	var tl []string
+	seenT := map[string]bool{}
+	for _, e := range entries {
+		if !e.rep.Translated {
+			continue
+		}
+		for _, t := range e.trefs {
+			if !seenT[t] {
+				seenT[t] = true
+				tl = append(tl, t)
+			}
+		}
+	}
+	b.WriteString("(* (type id the schema gives a field / method, node ids of the X_TypeID constants that the qualified Go\n" +
+		"   names used by the emitted getter, setter, NewX, constructors / method signatures resolve to through the\n" +
+		"   emitted import block) *)\n")
+	b.WriteString("Definition typerefs : list (Z * list Z) := [\n" + strings.Join(tl, ";\n") + "\n].\n\n")
+	var dl []string
+	seenD := map[string]bool{}
+	for _, e := range entries {
+		if !e.rep.Translated {
+			continue
+		}
+		for _, t := range e.drefs {
+			if !seenD[t] {
+				seenD[t] = true
+				dl = append(dl, t)
+			}
+		}
+	}
+	b.WriteString("(* pointer defaults: (0 = pipelined accessor X_Future.F(), 1 = getter; ((pointer slot, default message bytes) the\n" +
+		"   schema gives the field, (slot, bytes of the static data slice) the emitted accessor names)) *)\n")
+	b.WriteString("Definition defrefs : list (Z * ((Z * list Z) * (Z * list Z))) := [\n" + strings.Join(dl, ";\n") + "\n].\n")
 	old, _ := os.ReadFile(path)
 	if bytes.Equal(old, b.Bytes()) {
 		return nil
@@ -437,6 +545,7 @@ func writeDriver(genDir string, entries []*entry, gobin string) error {
 		fmt.Fprintf(&imp, "\tp%d \"c15gen/%s\"\n", k, e.pkgDir)
 		for _, n := range e.table.Nodes {
 			fmt.Fprintf(&reg, "\treg(%q, %q, reflect.TypeOf(p%d.%s{}))\n", e.name, n.Type, k, n.Type)
+			fmt.Fprintf(&reg, "\treg(%q, %q, reflect.TypeOf(p%d.%s_Future{}))\n", e.name, n.Type+"_Future", k, n.Type)
 			if !n.IsGroup {
 				fmt.Fprintf(&reg, "\tregNew(%q, %q, func(s *capnp.Segment) (interface{}, error) { return p%d.New%s(s) })\n", e.name, n.Type, k, n.Type)
 			}
